@@ -44,22 +44,34 @@ impl SegmentWriter {
         entry.extend_from_slice(&op_data_len.to_le_bytes());
         entry.extend_from_slice(op_data);
 
-        self.writer.write_all(&entry).map_err(|io_err| WalError::WriteWalEntryDataIO {
-            op_version,
-            segment_id: self.segment_id,
-            source: io_err,
-        })?;
+        // Write straight to the file (the buffer of `self.writer` is empty between entries) and
+        // remember where the record starts: a record whose write or sync failed is reported as
+        // failed and is not applied in memory, so its bytes must not stay behind. Left in the
+        // BufWriter or in the file they would be published by the next append or by the close,
+        // and the failed operation would come back after a restart.
+        let segment_id = self.segment_id;
+        let file = self.writer.get_mut();
+        let start_len = file
+            .metadata()
+            .map_err(|io_err| WalError::WriteWalEntryDataIO { op_version, segment_id, source: io_err })?
+            .len();
 
-        self.writer.flush().map_err(|e| WalError::Io {
-            operation: WalIoOperation::FlushWriter,
-            path: None,
-            source: e,
-        })?;
-        self.writer.get_ref().sync_data().map_err(|e| WalError::Io {
-            operation: WalIoOperation::SyncData,
-            path: None,
-            source: e,
-        })?;
+        let written = file
+            .write_all(&entry)
+            .map_err(|io_err| WalError::WriteWalEntryDataIO { op_version, segment_id, source: io_err })
+            .and_then(|()| {
+                file.sync_data().map_err(|e| WalError::Io {
+                    operation: WalIoOperation::SyncData,
+                    path: None,
+                    source: e,
+                })
+            });
+        if let Err(e) = written {
+            if let Err(truncate_err) = file.set_len(start_len) {
+                tracing::error!("Failed to cut off a partially written WAL entry: {truncate_err}");
+            }
+            return Err(e);
+        }
 
         tracing::trace!(
             version = op_version,
